@@ -30,6 +30,7 @@ pub fn generate(engine: &str, r: &mut Rng, opts: &BTreeMap<String, String>, sess
         "hexane" => hexane::generate(r, opts, sess, out),
         "serde" => serde_cli::generate(r, opts, sess, out),
         "crdt" => crdt::generate(r, opts, sess, out),
+        "storage" => crdt::generate_storage(r, opts, sess, out),
         "sync" => sync::generate(r, opts, sess, out),
         _ => panic!("unknown engine {}", engine),
     }
